@@ -1139,9 +1139,24 @@ def _reveals_set_order(function_name: str, args: Sequence[Any]) -> bool:
     str({..}) have another value when the program runs than they have here.
     """
     order_blind = {"len", "sorted", "min", "max", "any", "all", "set", "frozenset", "bool"}
-    return function_name not in order_blind and any(
-        isinstance(arg, (set, frozenset)) for arg in args
-    )
+    return function_name not in order_blind and any(_holds_set(arg) for arg in args)
+
+
+def _holds_set(value: Any) -> bool:
+    """Whether value is a set, or a set is somewhere inside it: str([{"a", "b"}]) shows its order as well."""
+    if isinstance(value, (set, frozenset)):
+        return True
+    if isinstance(value, (tuple, list)):
+        return any(_holds_set(element) for element in value)
+    if isinstance(value, dict):
+        return any(_holds_set(key) or _holds_set(element) for key, element in value.items())
+
+    return False
+
+
+def _formats_a_set(operator: ast.operator, left: Any, right: Any) -> bool:
+    """Whether a binary operation writes out a set in the order it is iterated: "%s" % {"a", "b"}."""
+    return isinstance(operator, ast.Mod) and isinstance(left, (str, bytes)) and _holds_set(right)
 
 
 def _is_too_large_to_compute(operator: ast.operator, left: Any, right: Any) -> bool:
@@ -1194,6 +1209,8 @@ def _literal_value(node: ast.AST) -> bool:
         right = literal_value(node.right)
         if _is_too_large_to_compute(node.op, left, right):
             raise ValueError("The value is too large to be computed while formatting")
+        if _formats_a_set(node.op, left, right):
+            raise ValueError("The order of a set is not the same in every process")
         return constants.COMPARISON_OPERATORS[type(node.op)](left, right)
 
     if match_template(node, ast.Compare(left=object, ops={object}, comparators={object})):
